@@ -13,9 +13,9 @@ contract('TemplatedType.to_cpp', returns='str', requires=['wf_ty(self)'], result
 contract('collect_namespaces',
          params={'obj': 'ref:Namespace|ref:Class|ref:Enum|ref:ForwardDeclaration|ref:GlobalFunction|ref:Variable'},
          returns='list[str]', fresh=True,
-         result_is="[''] + ns_chain(obj.parent)", assumed=True,
-         note='assumed (checked by the bounded tier on real trees): the while loop walks the parent chain; its '
-              'proof needs sequence-concatenation associativity and a finite-tree rank, which the engine lacks')
+         result_is="[''] + ns_chain(obj.parent)",
+         loops={0: {'inv': ['ns_chain(obj.parent) == ns_chain(ancestor) + namespaces'],
+                    'types': {'ancestor': 'estr|ref:Namespace|ref:Class', 'namespaces': 'list[str]'}}})
 
 PLAIN = 'forall(0, len(self.instantiations), lambda j: wf_tn_plain(self.instantiations[j]))'
 contract('InstantiatedGlobalFunction.to_cpp', returns='str', requires=[PLAIN], result_is='igf_cpp(self)')
@@ -77,3 +77,4 @@ contract('instantiate_return_type',
 contract('Enum.cpp_typename', returns='ref:Typename', modifies=['alloc'],
          ensures=['is_fresh(result)', 'result.name == old(self.name)', 'result.namespaces == old(ns_chain(self.parent))',
                   'len(result.instantiations) == 0'])
+contract('Namespace.top_level', returns='ref:Namespace', result_is='ns_root(self)')
